@@ -66,18 +66,13 @@ Fixpoint unit_loop (fuel : nat) (cfg : config F) (group : list (N * dyntype F)) 
     match r with
     | None => Ok None
     | Some number' =>
-      if search_index <? 0 then Panic SITE_USIZE_UNDERFLOW    (* group.get(&search_index) after 0 - 1 *)
-      else
       match nassoc (Z.to_N search_index) group with
       | None => Ok None
       | Some next' =>
-        (* search_index is updated before the exit test; `0usize - 1` panics in the dev profile *)
-        let search' := if upgrade then search_index + 1 else search_index - 1 in
-        if negb upgrade && (search_index =? 0) then
-          (* search_index - 1 overflows even when the loop is about to stop *)
-          Panic SITE_USIZE_UNDERFLOW
-        else if N.eqb (dt_index next') target_index then Ok (Some number')
-        else unit_loop f cfg group upgrade target_index number' next' search'
+        if N.eqb (dt_index next') target_index then Ok (Some number')
+        else if negb upgrade && (search_index =? 0) then Panic SITE_USIZE_UNDERFLOW  (* 0usize - 1: keys differ from indices *)
+        else unit_loop f cfg group upgrade target_index number' next'
+                       (if upgrade then search_index + 1 else search_index - 1)
       end
     end
   end.
@@ -159,39 +154,48 @@ Definition percent_of (base p : F) : F := fmul (do_division base f100) p.   (* P
 
 Definition SITE_YEAR_I32 : N := 2103.
 
-(* DateItem::calculate (date.rs:54-113) *)
+(* DateItem::calculate (date.rs:54-116): from_ymd_opt / checked_add_signed, None when the
+   target date does not exist *)
+Definition ymd_opt (y m d : Z) : option Z := date_of_ymd_opt y m d.
+Definition date_add_opt (n secs : Z) : option Z :=
+  let r := n + Z.quot secs 86400 in
+  if (MIN_DAY <=? r) && (r <=? MAX_DAY) then Some r else None.
+
 Definition date_calc (days : Z) (dur : Z) (op : optype) : res (option Z) :=
   let years_n := Z.abs dur / YEAR in
   match op with
   | OAdd =>
-    do st1 <- (if years_n =? 0 then Ok (days, dur)
-               else do d' <- date_of_ymd (year_of days + years_n) (month_of days) (day_of days);
-                    Ok (d', dur - YEAR * years_n));
-    let '(date, dur) := st1 in
-    let months_n := Z.abs dur / MONTH in
-    do st2 <- (if months_n =? 0 then Ok (date, dur)
-               else
-                 let years_diff := (month_of date + months_n) / 12 in
-                 let month := (month_of date + months_n) mod 12 in
-                 do d' <- date_of_ymd (year_of date + years_diff) month (day_of date);
-                 Ok (d', dur - MONTH * months_n));
-    let '(date, dur) := st2 in
-    do r <- date_add date dur; Ok (Some r)
+    Ok (option_bind
+          (if years_n =? 0 then Some (days, dur)
+           else option_map (fun d' => (d', dur - YEAR * years_n))
+                           (ymd_opt (year_of days + years_n) (month_of days) (day_of days)))
+          (fun st1 =>
+             let '(date, dur) := st1 in
+             let months_n := Z.abs dur / MONTH in
+             option_bind
+               (if months_n =? 0 then Some (date, dur)
+                else
+                  let total := month_of date - 1 + months_n in        (* month0() + n *)
+                  option_map (fun d' => (d', dur - MONTH * months_n))
+                             (ymd_opt (year_of date + total / 12) (total mod 12 + 1) (day_of date)))
+               (fun st2 => let '(date, dur) := st2 in date_add_opt date dur)))
   | OSub =>
-    do st1 <- (if years_n =? 0 then Ok (days, dur)
-               else do d' <- date_of_ymd (year_of days - years_n) (month_of days) (day_of days);
-                    Ok (d', dur - YEAR * years_n));
-    let '(date, dur) := st1 in
-    let months_n := Z.abs dur / MONTH in
-    do st2 <- (if months_n =? 0 then Ok (date, dur)
-               else
-                 let years := year_of date - Z.quot months_n 12 in
-                 let months := month_of date - Z.rem months_n 12 in
-                 let months := if months <? 0 then months + 12 else months in
-                 do d' <- date_of_ymd years months (day_of date);
-                 Ok (d', dur - MONTH * months_n));
-    let '(date, dur) := st2 in
-    do r <- date_sub date dur; Ok (Some r)
+    Ok (option_bind
+          (if years_n =? 0 then Some (days, dur)
+           else option_map (fun d' => (d', dur - YEAR * years_n))
+                           (ymd_opt (year_of days - years_n) (month_of days) (day_of days)))
+          (fun st1 =>
+             let '(date, dur) := st1 in
+             let months_n := Z.abs dur / MONTH in
+             option_bind
+               (if months_n =? 0 then Some (date, dur)
+                else
+                  let years := year_of date - Z.quot months_n 12 in
+                  let months := month_of date - Z.rem months_n 12 in
+                  let months := if months <=? 0 then months + 12 else months in
+                  option_map (fun d' => (d', dur - MONTH * months_n))
+                             (ymd_opt years months (day_of date)))
+               (fun st2 => let '(date, dur) := st2 in date_add_opt date (- dur))))
   | _ => Ok None
   end.
 
@@ -240,8 +244,8 @@ Definition calculate (cfg : config F) (l r : item F) (op : optype) : res (option
     match r with
     | IDuration d' =>
       match op with
-      | OAdd => do r <- dur_check SITE_DURATION_RANGE (d + d'); Ok (Some (IDuration r))
-      | OSub => do r <- dur_check SITE_DURATION_RANGE (d - d'); Ok (Some (IDuration r))
+      | OAdd => Ok (if dur_ok (d + d') then Some (IDuration (d + d')) else None)
+      | OSub => Ok (if dur_ok (d - d') then Some (IDuration (d - d')) else None)
       | _ => Ok None
       end
     | _ => Ok None
@@ -255,8 +259,8 @@ Definition calculate (cfg : config F) (l r : item F) (op : optype) : res (option
     match r with
     | IDuration d =>
       match op with
-      | OAdd => do r <- dt_add t d; Ok (Some (IDateTime r tz))
-      | OSub => do r <- dt_sub t d; Ok (Some (IDateTime r tz))
+      | OAdd => Ok (if dt_ok (t + d) then Some (IDateTime (t + d) tz) else None)
+      | OSub => Ok (if dt_ok (t - d) then Some (IDateTime (t - d) tz) else None)
       | _ => Ok None
       end
     | _ => Ok None
@@ -274,7 +278,7 @@ Definition calculate (cfg : config F) (l r : item F) (op : optype) : res (option
       match unit_of cfg u, unit_of cfg u' with
       | Some du, Some du' =>
         match dt_names du with
-        | [] => Panic SITE_NAMES0
+        | [] => Ok None                         (* names.first()? *)
         | name0 :: _ =>
           do c <- dyn_convert cfg y du' name0;
           match c with
